@@ -17,10 +17,10 @@ KINDS = ['src', 'map', 'filter', 'del', 'obs', 'sort', 'fin', 'dup', 'cat', 'con
 # variants: the real processors an abstract kind stands for
 VARIANTS = {
     'src': ['list', 'generator'],
-    'map': ['row_inplace', 'row_newdict', 'rows_gen', 'package_fn', 'lambda_row'],
+    'map': ['row_inplace', 'row_newdict', 'rows_gen', 'package_fn', 'lambda_row', 'row_rekeyed'],
     'filter': ['filter_rows', 'rows_gen', 'package_fn'],
     'del': ['delete_resource_int'],
-    'obs': ['dump_to_path', 'dump_to_zip', 'stream', 'checkpoint', 'dump_to_path_json'],
+    'obs': ['dump_to_path', 'dump_to_zip', 'stream', 'checkpoint', 'dump_to_path_json', 'dump_to_path_xlsx'],
     'sort': ['sort_rows'],
     'fin': ['finalizer', 'finalizer_stats'],
     'dup': ['duplicate', 'duplicate_batch1'],
@@ -167,6 +167,9 @@ class Run:
                 return f
             if variant == 'lambda_row':
                 return lambda row: dict(row, v=row['v'] + 10)
+            if variant == 'row_rekeyed':
+                # a new dict whose keys come in another order than the schema's fields: the order of a row's keys means nothing
+                return lambda row: dict(v=row['v'] + 10, k=row['k'], s=row['s'])
             if variant == 'rows_gen':
                 def f(rows):
                     for row in rows:
@@ -203,6 +206,8 @@ class Run:
                 return DF.dump_to_path(p)
             if variant == 'dump_to_path_json':
                 return DF.dump_to_path(p, format='json')
+            if variant == 'dump_to_path_xlsx':
+                return DF.dump_to_path(p, format='xlsx')
             if variant == 'dump_to_zip':
                 os.makedirs(p, exist_ok=True)
                 return DF.dump_to_zip(os.path.join(p, 'out.zip'))
@@ -307,7 +312,7 @@ class Run:
         for i, (variant, p) in sorted(self.obs_paths.items()):
             committed, persisted = False, []
             try:
-                if variant in ('dump_to_path', 'dump_to_path_json'):
+                if variant in ('dump_to_path', 'dump_to_path_json', 'dump_to_path_xlsx'):
                     dpj = os.path.join(p, 'datapackage.json')
                     if os.path.exists(dpj):
                         d = json.load(open(dpj))
@@ -349,6 +354,12 @@ class Run:
 
 
 def read_rows(data, fmt):
+    if fmt == 'xlsx':
+        import openpyxl
+        ws = openpyxl.load_workbook(io.BytesIO(data), read_only=True).worksheets[0]
+        table = list(ws.iter_rows(values_only=True))
+        head = list(table[0]) if table else []
+        return [{h: int(c) for h, c in zip(head, row) if h in ('s', 'k', 'v')} for row in table[1:]]
     if fmt == 'json':
         return [{'s': r['s'], 'k': r['k'], 'v': r['v']} for r in json.loads(data.decode('utf8'))]
     rd = csv.DictReader(io.StringIO(data.decode('utf8')))
